@@ -335,5 +335,5 @@ func TestVerif_C42_Conc(t *testing.T) {
 		"one goroutine per client handle (a GitBlobstore handle deliberately serves its cached manifest to readers while its own write is in flight, so a handle is one sequential client)",
 		"git handles read with the fetch-dedup window disabled (SyncForReadTTL=1ns)")
 	defer rec.Write(t)
-	vh.Check(t, "conc", 40, 110, func(rt *rapid.T) { c42ConcCase(rt, rec, 12, 6) })
+	vh.Check(t, "conc", 40, 110, func(rt *rapid.T) { c42ConcCase(rt, rec, 12, 5) })
 }
